@@ -134,7 +134,11 @@ func larkingRecvInDump() (string, bool) {
 // execReal runs one case over a socket and judges it.
 func (g *gen) execReal(c *Case) (vs []viol, outcome string) {
 	e := g.e
-	srv, err := e.server(c.Limit, c.Frag, c.SrvOpt)
+	opt := c.SrvOpt
+	if c.Proxied {
+		opt = "proxied"
+	}
+	srv, err := e.server(c.Limit, c.Frag, opt)
 	if err != nil {
 		e.r.Inconclusive("cannot start server: " + err.Error())
 		return nil, "no-server"
